@@ -45,7 +45,8 @@ Step ==
          [] e.ev = "enc" -> AllInSupport(e.items) /\ cd' = EncAll(cd, e.items) /\ Observed(cd', e)
          [] e.ev = "enc_refused" -> ~AllInSupport(e.items) /\ cd' = cd /\ Observed(cd, e)        \* a single impossible symbol: nothing changes
          \* an array call that meets an impossible symbol: what was coded before it stays, the call reports the error
-         [] e.ev = "enc_partial" -> AllInSupport(e.items) /\ ~PM!InSupport(e.bad[1], e.bad[2]) /\ cd' = EncAll(cd, e.items) /\ Observed(cd', e)
+         \* (the library stops at the error; a call that encodes nothing at all on error would satisfy the property as well)
+         [] e.ev = "enc_partial" -> AllInSupport(e.items) /\ ~PM!InSupport(e.bad[1], e.bad[2]) /\ (cd' = EncAll(cd, e.items) \/ cd' = cd) /\ Observed(cd', e)
          [] e.ev = "dec" -> DecAll(cd, e.items)[1] /\ cd' = DecAll(cd, e.items)[2] /\ Observed(cd', e)
          [] e.ev = "unseal" -> cd' = cd /\ (IF IsBinary(cd) THEN e.ok /\ e.data = ExportBinary(cd) ELSE ~e.ok) /\ Observed(cd, e)
          [] e.ev = "clone" -> cd' = cd /\ Observed(cd, e)                                      \* the clone is observed and becomes the coder
